@@ -111,7 +111,7 @@ def standin_masking(tier, seed):
     return dict(evaluations=evals, distinct_nontrivial=len(distinct),
                 rule="one evaluation = attachment terms + sufficient statistics + one maximisation step of a real model state whose "
                      "masked positions hold a given fill value, compared with the clean reference; distinct = (kind, fill, padding)",
-                samples=samples[:3], violations=violations[:3],
+                samples=samples[:3], violations=violations[:60],
                 bound=dict(space="model kinds x fills {0,1e30,NaN,inf} x paddings {0,3}", exhaustive=True, seed=seed))
 
 
